@@ -363,6 +363,12 @@ def run(ctx):
         allfail += [(c, "collect", 1), (c, "icollect", 1), (c, "map", 1)]
     extra = []
     pmap_collect(ctx, allfail, extra)
+    # AlignDesign: every match relation of the bound, failing files, skip_errors
+    d = ctx.tlc_dir("pool")
+    with open(os.path.join(d, "MCAlign.cfg"), "w") as f:
+        f.write("CONSTANTS NP = %d NS = 3 MaxFail = 1\nSPECIFICATION Spec\nINVARIANT NeverOutOfStep\nINVARIANT AlignOK\n"
+                "INVARIANT CacheMinimal\nINVARIANT ErrorsOnlyFromFailures\nINVARIANT PrefixRight\nPROPERTY Terminates\n" % (2 if quick else 3))
+    ctx.tlc(d, "AlignDesign", "MCAlign.cfg", workers=16, timeout=2400)
     pmap(ctx, empty_selection, [0], procs=1)
     pmap(ctx, align_case, [ctx.seed * 100 + i for i in range(40 if quick else 600)])
     pmap(ctx, process_pool_run, [ctx.seed * 7 + i for i in range(4 if quick else 40)], procs=1)
